@@ -20,12 +20,13 @@ FULL = dict(declared=True, shared_k=True, append_inline=False, open_take=True, d
 UNDECL = dict(declared=False, shared_k=False, append_inline=True, open_take=False, dup_names=False)
 
 
-def explore(ctx, label, rng, n, profile, target, no_append=False):
+def explore(ctx, label, rng, n, profile, target, no_append=False, cases=None):
     kinds = None
     if no_append:
         kinds = ["select", "derive", "filter", "sort", "take", "aggregate", "group_agg", "group_take", "join",
                  "derive", "filter", "sort", "take"]
-    cases = [relgen.make_case(rng, kinds=kinds, **profile) for _ in range(n)]
+    if cases is None:
+        cases = [relgen.make_case(rng, kinds=kinds, **profile) for _ in range(n)]
     res = relcheck.run_cases(cases, target)
     nbad = 0
     for c, r in zip(cases, res):
@@ -76,6 +77,12 @@ def run(ctx):
         return
     quick = ctx.tier == "quick"
     nbad = 0
+    # systematic part: every sequence of transform kinds up to length 2 (quick: + a fixed sample of length 3; thorough: all of
+    # length 3 + a sample of length 4), independent of VERIF_SEED
+    sysrng = random.Random(11)
+    syscases = relgen.systematic_cases(3 if quick else 4, SAFE, sample=(sysrng, 500 if quick else 3000))
+    ctx.coverage_extra["systematic_sequences"] = len(syscases)
+    nbad += explore(ctx, "systematic", None, 0, SAFE, "sql.sqlite", cases=syscases)
     fixed = random.Random(20240924)
     nbad += explore(ctx, "safe", fixed, 500 if quick else 3000, SAFE, "sql.sqlite")
     nbad += explore(ctx, "safe-generic", fixed, 200 if quick else 1500, SAFE, "sql.generic")
